@@ -21,6 +21,8 @@ type CutCase struct {
 	Method  string `json:"method"`
 	K       int    `json:"k"`
 	End     string `json:"end"` // "fin" | "rst" | TLS origin: "tlscut" (TCP FIN without close_notify), "tlsnotify" (close_notify, orderly)
+	// End "corrupt" (chunked only): after k bytes the origin sends a chunk-size line that is not hexadecimal and keeps the connection open
+	// Route "connect-reject": the reply is an upstream proxy's answer to the transport's CONNECT (request: GET https://... through that proxy)
 	// filled by the run
 	ReplyLen   int    `json:"reply_len"`
 	HeadLen    int    `json:"head_len"`
@@ -51,10 +53,11 @@ func (c CutCase) Coq() string {
 	if c.Proto == "HTTP/1.0" {
 		minor = 0
 	}
-	return fmt.Sprintf("(mkfcase %d %s %s %d %d %s %s %s %d %d %d %d %s %s %d %d %d %d)",
-		fr, coqfmt.Bool(c.End == "rst" || c.End == "tlscut"), coqfmt.Bool(c.Full), c.UpStatus, c.BodySent, bodyRef,
+	closed := c.ClientEnd == "eof" || c.ClientEnd == "reset"
+	return fmt.Sprintf("(mkfcase %d %s %s %d %d %s %s %s %d %d %d %d %s %s %d %d %d %d %s %s)",
+		fr, coqfmt.Bool(c.End == "rst" || c.End == "tlscut" || c.End == "corrupt"), coqfmt.Bool(c.Full), c.UpStatus, c.BodySent, bodyRef,
 		coqfmt.Bytes(c.Raw), coqfmt.Bool(c.ClientEnd == "eof"), verdictN(c.Go.Verdict), c.Go.Status, c.Go.BodyLen, c.Go.RestLen,
-		coqfmt.Bool(hasErrHdr), coqfmt.Bool(c.HarnessErr == ""), c.K, c.HeadLen, c.ReplyLen, minor)
+		coqfmt.Bool(hasErrHdr), coqfmt.Bool(c.HarnessErr == ""), c.K, c.HeadLen, c.ReplyLen, minor, coqfmt.Bool(closed), coqfmt.Bool(c.Route == "connect-reject"))
 }
 
 // CutBodyCoq is the Gallina definition of the shared body constant.
@@ -80,10 +83,19 @@ func cutReply(framing string) (reply string, headLen int) {
 		}
 		sb.WriteString("0\r\n\r\n")
 		return head + sb.String(), len(head)
+	case "reject":
+		head := fmt.Sprintf("HTTP/1.1 403 Forbidden\r\nContent-Type: text/plain\r\nContent-Length: %d\r\nX-Upstream: vf\r\n\r\n", len(cutBody))
+		return head + cutBody, len(head)
 	default:
 		head := "HTTP/1.1 200 OK\r\nContent-Type: text/plain\r\nX-Origin: vf\r\n\r\n"
 		return head + cutBody, len(head)
 	}
+}
+
+// chunkBoundary: reply[:k] ends exactly after the data CRLF of a chunk (so the next bytes are a chunk-size line)
+func chunkBoundary(reply string, hl, k int) bool {
+	p := ParseResponse([]byte(reply[:k]+"0\r\n\r\n"), false, false)
+	return p.Verdict == VComplete
 }
 
 // decodedSent: how many body bytes are contained in the first k bytes of the reply
@@ -122,6 +134,37 @@ func CutCases(tier string) []CutCase {
 						})
 					}
 				}
+			}
+		}
+	}
+	// the chunked body breaks BY FRAMING (a chunk-size line that is not hexadecimal) after the head / after each whole chunk,
+	// the origin keeps its connection open: not an EOF or a reset, still a failure after the head
+	{
+		reply, hl := cutReply("chunked")
+		for k := hl; k < len(reply)-5; k++ {
+			if k != hl && !(reply[k-2:k] == "\r\n" && chunkBoundary(reply, hl, k)) {
+				continue
+			}
+			for _, pl := range []bool{false, true} {
+				name := fmt.Sprintf("cut-direct-chunked-HTTP/1.1-corrupt-%d", k)
+				if pl {
+					name += "-pipelined"
+				}
+				out = append(out, CutCase{Name: name, Route: "direct", Framing: "chunked", Proto: "HTTP/1.1", Method: "GET", K: k, End: "corrupt", Pipelined: pl})
+			}
+		}
+	}
+	// an upstream proxy rejects the transport's CONNECT (GET https://... through it) with a Content-Length body and ends
+	// after k bytes of its reply
+	{
+		reply, hl := cutReply("reject")
+		for _, end := range []string{"fin", "rst"} {
+			for k := 0; k <= len(reply); k++ {
+				if tier != "thorough" && k != len(reply) && k != hl && k%3 != 0 {
+					continue
+				}
+				out = append(out, CutCase{Name: fmt.Sprintf("cut-connect-reject-length-HTTP/1.1-%s-%d", end, k),
+					Route: "connect-reject", Framing: "reject", Proto: "HTTP/1.1", Method: "GET", K: k, End: end})
 			}
 		}
 	}
@@ -166,6 +209,8 @@ type CutRig struct {
 	origin    *Peer
 	originTLS *Peer
 	upstream  *Peer
+	rejecter  *Peer // upstream proxy that rejects every CONNECT with a reply cut as its target host name says
+	rejRig    *Rig
 }
 
 // NewCutRig starts the peers and the proxies.
@@ -225,6 +270,12 @@ func NewCutRig() (*CutRig, error) {
 		// let the bytes reach the proxy before the connection ends (a reset may overtake data still in flight)
 		time.Sleep(15 * time.Millisecond)
 		switch end {
+		case "corrupt":
+			c.Write([]byte("ZZ\r\nnot a chunk\r\n"))
+			buf := make([]byte, 256)
+			c.SetReadDeadline(time.Now().Add(1500 * time.Millisecond))
+			c.Read(buf)
+			c.Close()
 		case "rst":
 			Reset(raw)
 		case "tlscut":
@@ -296,6 +347,47 @@ func NewCutRig() (*CutRig, error) {
 	if cr.viaUp, err = New(Options{Upstream: "http://" + cr.upstream.Addr}); err != nil {
 		return nil, err
 	}
+	cr.rejecter, err = NewPeer(func(c net.Conn, n int) {
+		head, err := ReadHead(c, 5*time.Second)
+		if err != nil {
+			c.Close()
+			return
+		}
+		// CONNECT k<k>-<end>.invalid:443
+		var k int
+		var end string
+		line := string(head)
+		if i := strings.Index(line, "CONNECT k"); i >= 0 {
+			fmt.Sscanf(line[i+9:], "%d", &k)
+			if strings.Contains(line[:strings.Index(line, "\r\n")], "-rst.") {
+				end = "rst"
+			}
+		}
+		reply, _ := cutReply("reject")
+		if k > len(reply) {
+			k = len(reply)
+		}
+		c.Write([]byte(reply[:k]))
+		if k == len(reply) {
+			buf := make([]byte, 256)
+			c.SetReadDeadline(time.Now().Add(2 * time.Second))
+			c.Read(buf)
+			c.Close()
+			return
+		}
+		time.Sleep(15 * time.Millisecond)
+		if end == "rst" {
+			Reset(c)
+		} else {
+			c.Close()
+		}
+	})
+	if err != nil {
+		return nil, err
+	}
+	if cr.rejRig, err = New(Options{Upstream: "http://" + cr.rejecter.Addr}); err != nil {
+		return nil, err
+	}
 	if cr.tlsRig, err = New(Options{InsecureUpstream: true}); err != nil {
 		return nil, err
 	}
@@ -311,6 +403,8 @@ func (cr *CutRig) Close() {
 	cr.viaUp.Close()
 	cr.tlsRig.Close()
 	cr.mitmRig.Close()
+	cr.rejRig.Close()
+	cr.rejecter.Close()
 	cr.origin.Close()
 	cr.originTLS.Close()
 	cr.upstream.Close()
@@ -327,6 +421,9 @@ func (c *CutCase) timeout() time.Duration {
 func (cr *CutRig) Run(c *CutCase) {
 	reply, headLen := cutReply(c.Framing)
 	c.ReplyLen, c.HeadLen, c.Body, c.UpStatus = len(reply), headLen, cutBody, 200
+	if c.Route == "connect-reject" {
+		c.UpStatus = 403
+	}
 	c.BodySent = decodedSent(c.Framing, reply, headLen, c.K)
 	orderly := c.End == "fin" || c.End == "tlsnotify"
 	c.Full = c.K == len(reply) && (c.Framing != "close" || orderly)
@@ -343,6 +440,8 @@ func (cr *CutRig) Run(c *CutCase) {
 		rig = cr.tlsRig
 	case "mitm":
 		rig = cr.mitmRig
+	case "connect-reject":
+		rig = cr.rejRig
 	}
 	raw, err := Dial(rig.Addr)
 	if err != nil {
@@ -354,6 +453,8 @@ func (cr *CutRig) Run(c *CutCase) {
 	target := fmt.Sprintf("http://%s/cut/%s/%d/%s", cr.origin.Addr, c.Framing, c.K, c.End)
 	req := reqLine(c.Method, target, c.Proto)
 	switch c.Route {
+	case "connect-reject":
+		req = reqLine(c.Method, fmt.Sprintf("https://k%d-%s.invalid/x", c.K, c.End), c.Proto)
 	case "tls":
 		req = reqLine(c.Method, fmt.Sprintf("https://%s/cut/%s/%d/%s", cr.originTLS.Addr, c.Framing, c.K, c.End), c.Proto)
 	case "mitm":
